@@ -91,18 +91,18 @@ type client struct {
 }
 
 type hand struct {
-	r        *run
-	rng      *sim.RNG
-	loop     sim.Loop
-	fc       *faultCfg
-	cl       []*client
-	faultsOn bool
-	calmAt   int
-	phaseChg bool
-	cap      int
-	extra    int // deliveries after close
+	r            *run
+	rng          *sim.RNG
+	loop         sim.Loop
+	fc           *faultCfg
+	cl           []*client
+	faultsOn     bool
+	calmAt       int
+	phaseChg     bool
+	cap          int
+	extra        int   // deliveries after close
 	lastDelivery int64 // virtual time of the last delivery
-	stuck    bool  // nothing has been delivered for a long while: nobody finds anything to do
+	stuck        bool  // nothing has been delivered for a long while: nobody finds anything to do
 }
 
 const (
@@ -599,6 +599,9 @@ func (r *run) closer() {
 }
 
 func (r *run) finish(c *sim.Case) *sim.Result {
+	if r.srv != nil {
+		r.twinCheck()
+	}
 	c.Steps = r.steps
 	r.res.Case = c
 	return r.res
@@ -630,6 +633,7 @@ func (w World) Generate(subseed uint64, o sim.Options) *sim.Result {
 		return r.finish(c)
 	}
 	fc := drawFaults(rng, cfg.N())
+	r.twinStart()
 	srv, err, permOK := startGame(cfg, r.on("C07"), cfg.ViaBackend)
 	if err != nil {
 		r.viol("C06", "start-refused-valid-config", fmt.Sprintf("Start() returned %v", err), 0)
@@ -672,6 +676,7 @@ func (w World) Replay(c *sim.Case, o sim.Options) *sim.Result {
 		r.runInvalid(&cfg)
 		return r.finish(cc)
 	}
+	r.twinStart()
 	srv, err, permOK := startGame(&cfg, r.on("C07"), cfg.ViaBackend)
 	if err != nil {
 		r.viol("C06", "start-refused-valid-config", fmt.Sprintf("Start() returned %v", err), 0)
